@@ -96,7 +96,7 @@ PROPS = {
         "assumptions": ["AEAD security assumed; uniqueness theorems (C12) reduce an accepted change to a tag forgery"],
     },
     "C04": {
-        "modules": ["Cose.Props.C04"], "families": ["msg:C04"], "spec_ops": ["msg.consume", "msg.produce"],
+        "modules": ["Cose.Props.C04"], "families": ["msg:C04", "kdf"], "spec_ops": ["msg.consume", "msg.produce", "kdf.enc"],
         "n_quick": 400, "n_thorough": 40000,
         "rule": "messages written by an independent mini-encoder with non-canonical protected buckets (non-shortest integers, reversed key order, explicit h'a0'), non-shortest heads, optional tags, "
                 "authenticated by the library's primitive over the RFC 9052 structure computed independently; recording Signer/Verifier/MACer/Encryptor wrappers expose the bytes handed to the primitive (tobe= / aad=), "
@@ -121,7 +121,7 @@ PROPS = {
         "assumptions": ["non-repetition of crypto/rand output is not a theorem: proved instead that each encryption consumes its own block of the stream"],
     },
     "C09": {
-        "modules": ["Cose.Props.C09"], "families": ["msg:C09"], "spec_ops": [],
+        "modules": ["Cose.Props.C09"], "families": ["msg:C09", "kdf", "claims", "dec"], "spec_ops": ["kdf.enc", "claims.enc", "dec.bytestr", "dec.keyjson"],
         "n_quick": 400, "n_thorough": 40000,
         "rule": "library-produced messages of the 6 kinds re-encoded (tagged and untagged input), RemoveCBORTag on tagged and CWT-tagged input; foreign non-canonical messages re-encoded then consumed again "
                 "(decode -> encode -> decode -> verify on the library, predicted by the model)",
@@ -178,5 +178,17 @@ PROPS = {
                 "one Validator); every result compared with the sequential one (deterministic operations byte-equal, ECDSA signatures verified); distinct = total operations / goroutines",
         "trusted_base": ["extractor footprint classifier (typed AST) and the allow-list of external callees in Props/C19.lean", "Go race detector (search support only)"],
         "assumptions": ["the Go memory model, the scheduler and the thread-safety of crypto/* objects held in fields (cipher.Block) are assumed, not modelled; a theorem cannot exhibit a race"],
+    },
+    "C07": {
+        "modules": ["Cose.Props.C07"],
+        "families": ["dec", "kdf", "claims", "msg:C02", "msg:C03", "msg:C04", "map", "cbor", "key", "impl", "sig", "ecdh", "prim:mac", "prim:aead", "prim:kdf", "cwt"],
+        "spec_ops": [],
+        "n_quick": 250, "n_thorough": 30000,
+        "extras": [{"name": "nolink", "pkg": "./nolink", "args": [], "n_quick": 1, "n_thorough": 1}],
+        "rule": "every op of every family runs under recover in the harness (a panic is an answer the model never gives): mutated messages of all 6 kinds (bit flips, truncation, splices, kind swaps), "
+                "malformed CBOR into maps / keys / key sets / recipients / KDF contexts / claims (null and odd-typed members, wrong arity, huge lengths), key factories on arbitrary maps, "
+                "compressed off-curve / short points, primitives with empty data, 65536-byte CCM plaintext, wrong-size nonces / tags / signatures, lengths to 70000; plus a program linking no hash package",
+        "trusted_base": ["extractor panic-site classifier (typed AST) and its table of externals with panicking preconditions", "all models of the other properties"],
+        "assumptions": ["fxamacker/cbor and Go crypto are assumed panic-free and resource-linear on their documented domains; time/memory proportionality is not expressed in the model (wall time of the run is recorded)"],
     },
 }
